@@ -14,6 +14,7 @@ Decided (shape engine: index-space / dimension / provenance typing of get_templa
   K1  the threshold comparison is >= (the peak channel itself always passes)
   +   sparse storage: NOTHING ELSE is dropped - every step from the stored slots to the returned list is one of the two masks, the amplitude order or its reversal
       (a truncation or a further mask is a violation)
+  +   A2: the amplitude vector is not read from a freshly allocated buffer filled at an index subset only (`partialfill`): entry j is the amplitude of column j
 Not decided: numeric values, ties, the 1e-6 signal threshold, the neighbourhood size constant.
 """
 import ast
@@ -70,6 +71,10 @@ def record_checks(ctx, fi, label, rec, S, explicit=False, whitened=False):
     if isinstance(amp.elem, Q):
         ctx.check('ptp:Samp' in amp.elem.tags and amp.elem.dim == want.dim, 'C05.A2', fi, label, '%s: amplitude = max - min over samples of the returned waveform' % label,
                   '%s: amplitude is %s, expected the peak-to-peak over samples of the returned (%s) waveform' % (label, amp.elem, want), value=getattr(amp, 'elem', amp))
+        # entry j is the amplitude of COLUMN j: not a value looked up in a buffer that was filled at other channels only (zero / fill value for the rest)
+        if 'partialfill' in amp.elem.tags:
+            ctx.violated('C05.A2', fi, label + ' amplitude source', '%s: the amplitude vector is read from a buffer that was filled only at an index subset (the automatically selected channels): a '
+                         'requested channel outside that subset gets the fill value, not the peak-to-peak amplitude of its column' % label)
     else:
         ctx.undecided('C05.A2', fi, '%s: amplitude element type %s' % (label, amp.elem))
     # A2 ordering
